@@ -437,7 +437,9 @@ func (w *world) checkTx(ob *vh.ObservedBlock, i int, p *plan) {
 			acc = "accepted"
 		}
 		st.add("signed_message_attempts_by_class", p.Forge+"|"+acc, 1)
-		if strings.HasPrefix(p.Forge, "valid") {
+		if p.Forge == otherDenomClass {
+			run.Count("signed_messages_in_other_denomination", 1)
+		} else if strings.HasPrefix(p.Forge, "valid") {
 			run.Count("signed_messages_valid", 1)
 			if actualOK {
 				run.Count("signed_messages_valid_accepted", 1)
@@ -481,6 +483,9 @@ func (w *world) checkTx(ob *vh.ObservedBlock, i int, p *plan) {
 	run.Count("twin_comparisons", 1)
 	if expectChange {
 		run.Count("twin_comparisons_with_effect", 1)
+		if tw.MultiDenomRewards {
+			run.Count("twin_comparisons_paying_rewards_in_several_denominations", 1)
+		}
 	}
 	if len(sd) > 0 {
 		kinds := map[string]bool{}
